@@ -390,6 +390,10 @@ def vary_names(decls, every=3, upper=True, raw=True, vis=True, hostile=True):
                 f.setdefault("tyspell", ["", "arbitrary_int::", "::arbitrary_int::"][(k + j) % 3])
             if f["kind"] == "optenum":
                 f.setdefault("optspell", ["", "::core::option::"][(k + j) % 2])
+        # the struct itself named like a trait the macro derives / implements by name (a struct named `Default` or `Result`
+        # breaks the current macro too and is not generated)
+        if d.get("name") == "T" and k % 9 in (5, 7, 8):
+            d["name"] = {5: "Clone", 7: "Copy", 8: "Debug"}[k % 9]
         # a named default whose constant is called like one of the macro's own items
         if d.get("def"):
             d.setdefault("defname", ["DEFVAL", "DEFAULT_RAW_VALUE", "ZERO", "RESET", "DEFAULT", "START"][k % 6])
